@@ -74,6 +74,7 @@ SpecStep ==
     [] ev.e = "mgr" /\ ev.case = "result"    -> MgrResult /\ oph = ev.r /\ MgrPost
     [] ev.e = "mgr_stopped"  -> MgrExitWait
     [] ev.e = "obs" -> /\ ev.obs => (hnHeld = ev.hn /\ (ev.rk => resv = ev.resv))   \* projected state agrees
+                       /\ ev.by \in {"-", "ok"}      \* a bystander lease of the same deployment is left alone
                        /\ UNCHANGED vars
     [] ev.e \in {"end", "stuck", "skipped"} -> UNCHANGED vars
     [] OTHER -> FALSE          \* "inapplicable": the implementation was not where the script expected it
